@@ -191,6 +191,18 @@ public:
     }
 
     /**
+     * Determine if URLs should be escaped in HTML output,
+     * according to the xsl:output element
+     *
+     * @return true to escape URLs
+     */
+    bool
+    getOutputEscapeURLs() const
+    {
+        return m_outputEscapeURLs;
+    }
+
+    /**
      * Get the output encoding string that was specified in the
      * xsl:output element
      *
